@@ -40,6 +40,10 @@ AXES = {
     "SavePhaseSpace": [0, 2],
     "InitialDistZoom": [0.5, 3],
     "rotations": [0, 0.125, 1.0],
+    # kick amplitudes up to beyond the grid: wake kicks (strong currents on a resistive impedance), RF kicks and drifts of many cells per step
+    "kick": ["BunchCurrent=1", "BunchCurrent=1000", "BunchCurrent=1e6|CollimatorRadius=0.0005", "StepsPerTs=1|alpha0=0.5", "alpha0=10", "alpha1=50", "alpha2=-1000",
+             "SynchrotronFrequency=4e6", "LinearRF=false|AcceleratingVoltage=1e9", "RFPhaseModAmplitude=30|RFPhaseModFrequency=1e5", "RFAmplitudeSpread=10",
+             "BunchCurrent=1|tracking=@track_edges|FPTrack=1", "alpha0=10|tracking=@track_edges|FPTrack=3"],
 }
 
 
